@@ -846,7 +846,8 @@ class Lemma:
                 S.require(r['ap'] == self.ap_at_loop_restore, f'{o.kind} does not release exactly the arrays allocated since the loop\'s restore point')
                 S.require(r['defeat'] == self.loop_defeat_value, f'defeat is not restored to the loop\'s defeat at {o.kind}')
                 S.sync(leaf.st, f'at {o.kind}')
-        self.allocating = False
+        # (decided from the statements themselves, not from whether the simulation got far enough to see the allocation)
+        self.allocating = any(isinstance(s_, ast.Declaration) and isinstance(s_.init, (ast.ArrayLiteral, ast.ArrayInitializer)) for s_ in stmts)
         self.simulate(leaves, program, compare, P['SIM'])
         # (when the statements create arrays, ap at exit is checked per leaf against the sizes the source semantics allocated, above)
         self.inv_at_exit([l for l in leaves if l.kind == 'exit' and l.tgt == '<end>'], P['INV'], ap_delta=self.expected_ap_delta, ap_check=not self.allocating)
